@@ -2,6 +2,7 @@ SPECIFICATION Spec
 CONSTANTS
   Legacy = TRUE
   Emit = FALSE
+  Light = FALSE
   MaxR = 2
 INVARIANT MImpliesP
 INVARIANT EmitCases
